@@ -54,4 +54,7 @@ def regress_cases():
                                                         ('og', 'f5.b', None, [('g', '3', None), ('g', '4', None)])])])],
                      [('1', 'HUMAN'), ('2', 'HUMAN'), ('3', 'HUMAN'), ('4', 'PANTR'), ('9', 'MOUSE')],
                      'F5-duplicated-subhog-solely-one-duplication'))
+    # copies of a duplication two levels below their group, each skipping a level below the duplication's HOG
+    out.append(_case([('og', 'deep', None, [('g', '3', None), ('pg', None, [('g', '1', None), ('g', '2', None)])])],
+                     [('1', 'HUMAN'), ('2', 'MOUSE'), ('3', 'XENTR')], 'copies-several-levels-below-group'))
     return out
